@@ -14,6 +14,13 @@
 // saw the lock taken is suspended (Scheduler::Suspend) and made runnable again by the unlocking `store`.  Every trace
 // produced this way is a trace of the real code (the spinner simply was not scheduled in between); the failed
 // `exchange` and the spin loads are in the trace and are validated against the model.
+//
+// Extra forms.  `wrw` / `rdw` = Lock() / LockShared() whose section waits (suspended on a harness gate, not on the mutex)
+// until every other coroutine has been through the spinlock-protected part of its lock call (= queued, or got a pass),
+// reported a failed try, or finished: this forces "1 holder + a reader queued behind it + 2..3 writers queued behind the
+// reader" (k = 4/5) in the first execution on the single-worker executor.  `dtryrd` / `dtrywr` = SharedGuard / UniqueGuard
+// built with std::defer_lock + guard.TryLock(); `prd`/`pwr` + `rtryrd`/`rtrywr` = a guard that lives across rounds, unlocked
+// with UnlockHere and re-locked with guard.TryLock(); monitor: TryLock() == OwnsLock().
 #include <common/vx.hpp>
 
 #include <yaclib/async/future.hpp>
@@ -24,6 +31,7 @@
 
 #include <deque>
 #include <map>
+#include <set>
 #include <sstream>
 
 namespace {
@@ -70,6 +78,8 @@ const void* gSpinWord = nullptr;
 bool gSpinHeld = false;
 std::vector<yaclib::detail::fiber::FiberBase*> gSpinWaiters;
 
+void GateArrive(const std::string& who);
+
 void OnAtomicHook(void* c, const void* obj, int op, int so, int fo, unsigned long long a, unsigned long long e,
                   unsigned long long r, int ok) {
   static_cast<vx::Ctx*>(c)->OnAtomic(obj, op, so, fo, a, e, r, ok);
@@ -79,6 +89,7 @@ void OnAtomicHook(void* c, const void* obj, int op, int so, int fo, unsigned lon
     if (r == 0) gSpinHeld = true;
   } else if (op == kStore) {
     gSpinHeld = false;
+    GateArrive(static_cast<vx::Ctx*>(c)->Cur());  // the coroutine has been through a spinlock-protected block
     auto waiters = std::move(gSpinWaiters);
     gSpinWaiters.clear();
     for (auto* f : waiters) yaclib::fault::Scheduler::GetScheduler()->Schedule(f);
@@ -92,7 +103,8 @@ void OnAtomicHook(void* c, const void* obj, int op, int so, int fo, unsigned lon
 struct Scenario {
   bool fifo, rfifo;
   std::string exec;                            // inline | pool1 | pool2
-  std::vector<std::vector<std::string>> prog;  // rd grd wr gwr tryrd gtryrd trywr gtrywr
+  std::vector<std::vector<std::string>> prog;  // rd grd wr gwr tryrd gtryrd trywr gtrywr wrw rdw dtryrd dtrywr prd pwr rtryrd rtrywr
+  std::uint64_t cap = 0;                       // bound on the executions of this scenario (0 = the command line's)
   std::string Header() const {
     std::string p;
     for (std::size_t i = 0; i < prog.size(); ++i) {
@@ -110,6 +122,11 @@ struct Scenario {
 struct Shared {
   std::map<const yaclib::Job*, std::string> job_name;
   std::map<std::string, bool> started;
+  // gate of the `wrw` / `rdw` forms
+  int gate_need = 0;
+  std::string gate_holder;
+  std::set<std::string> gate_arrived;
+  yaclib::Job* gate_waiting = nullptr;
   int readers_inside = 0, writers_inside = 0;
   int plain = 0, wsections = 0;
   int finished = 0;
@@ -146,11 +163,14 @@ struct Exec final : yaclib::IExecutor {
       job.Call();
       ctx.NameSelf(saved);
     } else {
-      q.push_back(&job);
-      if (active < workers) {
-        ++active;
-        threads.emplace_back("w" + std::to_string(spawned++), [this] { Drain(); });
-      }
+      Enqueue(job);
+    }
+  }
+  void Enqueue(yaclib::Job& job) {
+    q.push_back(&job);
+    if (active < workers) {
+      ++active;
+      threads.emplace_back("w" + std::to_string(spawned++), [this] { Drain(); });
     }
   }
   void Drain() {
@@ -178,6 +198,27 @@ struct SelfAwaiter {
 };
 
 #define ME() vx::gCtx->NameSelf(me)
+
+Exec* gExec = nullptr;
+
+void GateArrive(const std::string& who) {
+  if (gS->gate_need == 0 || who == gS->gate_holder || who.empty() || who[0] != 'c') return;
+  gS->gate_arrived.insert(who);
+  if (static_cast<int>(gS->gate_arrived.size()) >= gS->gate_need && gS->gate_waiting != nullptr) {
+    auto* j = gS->gate_waiting;
+    gS->gate_waiting = nullptr;
+    gExec->Enqueue(*j);  // not a mutex operation: no event
+  }
+}
+
+struct GateAwaiter {
+  bool await_ready() const noexcept { return static_cast<int>(gS->gate_arrived.size()) >= gS->gate_need; }
+  template <typename P>
+  void await_suspend(yaclib_std::coroutine_handle<P> h) noexcept {
+    gS->gate_waiting = static_cast<yaclib::Job*>(&static_cast<yaclib::detail::BaseCore&>(h.promise()));
+  }
+  void await_resume() const noexcept {}
+};
 
 void EnterR() {
   vx::Ev("cs_enter r");
@@ -214,8 +255,90 @@ yaclib::Future<> Coro(const Scenario& sc, int id, yaclib::SharedMutex<FIFO, RFIF
   gS->job_name[static_cast<yaclib::Job*>(core)] = me;
   co_await yaclib::On(ex);
   ME();
+  yaclib::SharedGuard<M> psg;  // guards of the `prd`/`pwr`/`rtry*` forms live across rounds
+  yaclib::UniqueGuard<M> pug;
   for (const std::string& op : sc.prog[id]) {
-    if (op == "rd") {
+    if (op == "wrw") {
+      co_await m.Lock();
+      ME();
+      EnterW();
+      co_await GateAwaiter{};  // still inside the exclusive section
+      ME();
+      ExitW();
+      m.UnlockHere();
+    } else if (op == "rdw") {
+      co_await m.LockShared();
+      ME();
+      EnterR();
+      co_await GateAwaiter{};  // still inside the shared section
+      ME();
+      ExitR();
+      m.UnlockHereShared();
+    } else if (op == "prd") {
+      if (psg.Mutex() == nullptr) {
+        psg = co_await m.GuardShared();
+      } else {
+        co_await psg.Lock();
+      }
+      ME();
+      EnterR();
+      ExitR();
+      psg.UnlockHere();
+    } else if (op == "pwr") {
+      if (pug.Mutex() == nullptr) {
+        pug = co_await m.Guard();
+      } else {
+        co_await pug.Lock();
+      }
+      ME();
+      EnterW();
+      ExitW();
+      pug.UnlockHere();
+    } else if (op == "dtryrd" || op == "rtryrd") {
+      if (op == "dtryrd" || psg.Mutex() == nullptr) psg = yaclib::SharedGuard<M>{m, std::defer_lock};
+      const bool ok = psg.TryLock();
+      if (ok != psg.OwnsLock()) {
+        gS->Bad(std::string("SharedGuard::TryLock() returned ") + (ok ? "true" : "false") + " but OwnsLock() is " +
+                (psg.OwnsLock() ? "true" : "false"));
+        if (!ok) std::ignore = psg.Release();  // keep the run sane: do not release a lock that was never taken
+      }
+      if (ok) {
+        if (gS->writers_inside != 0) gS->Bad("SharedGuard::TryLock() succeeded while an exclusive holder is inside");
+        EnterR();
+        ExitR();
+        if (op == "dtryrd") {
+          yaclib::SharedGuard<M> dying = std::move(psg);
+        } else {
+          psg.UnlockHere();
+        }
+      } else {
+        vx::Ev("try_fail");
+        GateArrive(me);
+      }
+    } else if (op == "dtrywr" || op == "rtrywr") {
+      if (op == "dtrywr" || pug.Mutex() == nullptr) pug = yaclib::UniqueGuard<M>{m, std::defer_lock};
+      const bool ok = pug.TryLock();
+      if (ok != pug.OwnsLock()) {
+        gS->Bad(std::string("UniqueGuard::TryLock() returned ") + (ok ? "true" : "false") + " but OwnsLock() is " +
+                (pug.OwnsLock() ? "true" : "false"));
+        if (!ok) std::ignore = pug.Release();
+      }
+      if (ok) {
+        if (gS->writers_inside != 0 || gS->readers_inside != 0) {
+          gS->Bad("UniqueGuard::TryLock() succeeded while another holder is inside");
+        }
+        EnterW();
+        ExitW();
+        if (op == "dtrywr") {
+          yaclib::UniqueGuard<M> dying = std::move(pug);
+        } else {
+          pug.UnlockHere();
+        }
+      } else {
+        vx::Ev("try_fail");
+        GateArrive(me);
+      }
+    } else if (op == "rd") {
       co_await m.LockShared();
       ME();
       EnterR();
@@ -245,6 +368,7 @@ yaclib::Future<> Coro(const Scenario& sc, int id, yaclib::SharedMutex<FIFO, RFIF
         m.UnlockHereShared();
       } else {
         vx::Ev("try_fail");
+        GateArrive(me);
       }
     } else if (op == "gtryrd") {
       yaclib::SharedGuard<M> g = m.TryGuardShared();
@@ -255,6 +379,7 @@ yaclib::Future<> Coro(const Scenario& sc, int id, yaclib::SharedMutex<FIFO, RFIF
         g.UnlockHere();
       } else {
         vx::Ev("try_fail");
+        GateArrive(me);
       }
     } else if (op == "trywr") {
       if (m.TryLock()) {
@@ -264,6 +389,7 @@ yaclib::Future<> Coro(const Scenario& sc, int id, yaclib::SharedMutex<FIFO, RFIF
         m.UnlockHere();
       } else {
         vx::Ev("try_fail");
+        GateArrive(me);
       }
     } else if (op == "gtrywr") {
       yaclib::UniqueGuard<M> g = m.TryGuard();
@@ -273,6 +399,7 @@ yaclib::Future<> Coro(const Scenario& sc, int id, yaclib::SharedMutex<FIFO, RFIF
         ExitW();
       } else {
         vx::Ev("try_fail");
+        GateArrive(me);
       }
     }
     ME();  // an unlock / a guard destructor may have resumed another coroutine in place (inline executor)
@@ -280,6 +407,7 @@ yaclib::Future<> Coro(const Scenario& sc, int id, yaclib::SharedMutex<FIFO, RFIF
   ME();
   vx::Ev("done");
   ++gS->finished;
+  GateArrive(me);
   co_return{};
 }
 
@@ -290,6 +418,12 @@ void RunScenarioT(const Scenario& sc) {
   gSpinWaiters.clear();
   auto& ctx = *vx::gCtx;
   yaclib::verif::gHooks.on_atomic = &OnAtomicHook;
+  for (std::size_t i = 0; i < sc.prog.size(); ++i)
+    for (auto& op : sc.prog[i])
+      if (op == "wrw" || op == "rdw") {
+        gShared.gate_need = static_cast<int>(sc.prog.size()) - 1;
+        gShared.gate_holder = "c" + std::to_string(i);
+      }
   using M = yaclib::SharedMutex<FIFO, RFIFO>;
   M m;
   auto& base = M::template Cast<typename M::Base>(m);
@@ -298,6 +432,7 @@ void RunScenarioT(const Scenario& sc) {
   gSpinWord = &((base.*Get(LockTag<FIFO, RFIFO>{})).*Get(SpinTag{}));
   ctx.NameObj(gSpinWord, "sp", true);
   Exec ex;
+  gExec = &ex;
   ex.workers = sc.exec == "inline" ? 0 : sc.exec == "pool1" ? 1 : 2;
   const int k = static_cast<int>(sc.prog.size());
   std::vector<yaclib::Future<>> futs(k);
@@ -316,6 +451,7 @@ void RunScenarioT(const Scenario& sc) {
   }
   ctx.NameSelf("r");
   gSpinWord = nullptr;
+  gExec = nullptr;
 }
 
 void RunScenario(const Scenario& sc) {
@@ -392,11 +528,33 @@ std::vector<Scenario> AllScenarios() {
     {P({"wr", "rd"}), P({"gtrywr", "rd"}), P({"wr"})},
     {P({"wr"}), P({"wr", "rd"}), P({"rd", "tryrd"})},
   };
+  // guard-level TryLock on a deferred / unlocked guard (Guard::TryLock, not SharedMutex::TryLock*)
+  std::vector<std::vector<std::vector<std::string>>> guard_progs = {
+    {P({"wr"}), P({"dtryrd"})},
+    {P({"rd"}), P({"dtrywr"})},
+    {P({"gwr", "rd"}), P({"prd", "rtryrd"}), P({"pwr", "rtrywr"})},
+  };
+  // the same with the incompatible holder parked inside its section until the trier has reported
+  std::vector<std::vector<std::vector<std::string>>> gated_guard_progs = {
+    {P({"wrw"}), P({"dtryrd", "tryrd"})},
+    {P({"rdw"}), P({"dtrywr", "tryrd"})},
+  };
+  // 1 holder + 1 reader queued behind it + 2..3 writers queued behind the reader
+  std::vector<std::vector<std::vector<std::string>>> batch_progs = {
+    {P({"wrw"}), P({"rd"}), P({"wr"}), P({"wr"})},
+    {P({"wrw"}), P({"grd"}), P({"gwr"}), P({"wr"}), P({"wr"})},
+  };
   std::vector<Scenario> out;
   for (int f = 0; f < 2; ++f)
     for (int rf = 0; rf < 2; ++rf)
-      for (const char* e : {"pool2", "pool1", "inline"})
+      for (const char* e : {"pool2", "pool1", "inline"}) {
         for (auto& p : progs) out.push_back(Scenario{f != 0, rf != 0, e, p});
+        for (auto& p : guard_progs) out.push_back(Scenario{f != 0, rf != 0, e, p});
+        if (std::string(e) != "inline") {
+          for (auto& p : gated_guard_progs) out.push_back(Scenario{f != 0, rf != 0, e, p, 1000});
+          for (auto& p : batch_progs) out.push_back(Scenario{f != 0, rf != 0, e, p, 1000});
+        }
+      }
   return out;
 }
 
@@ -405,7 +563,9 @@ std::vector<Scenario> AllScenarios() {
 int main(int argc, char** argv) {
   auto opt = vx::ParseOptions(argc, argv);
   vx::Explorer ex(opt);
+  const auto user_max = ex.opt.max_exec;
   for (auto& sc : AllScenarios()) {
+    ex.opt.max_exec = sc.cap != 0 && sc.cap < user_max ? sc.cap : user_max;
     ex.Run(sc.Header(), [&] { RunScenario(sc); }, [&](bool done) { return Monitor(sc, done); });
   }
   ex.Report();
